@@ -17,7 +17,7 @@ def jsonnl(n, tier):
              models=['m_throw.c', 'm_env.c'], libmodels=['m_string.c', 'm_stl.c'], unwind=n + 4, cdefs=['VLL_STR_NOGROW'], tier=tier, timeout=600,
              bounds='every message template of exactly %d bytes over {a, space, newline}' % n,
              what='real detail::JsonSink::write_log: the template handed to the JSON line equals the original with every newline replaced by one space (same length, nothing else touched), the line is generated once and handed down once, closed by "}" and a newline')
-QUERIES = [jsonnl(4, 'dev'), strip(5, 'dev'), strip(7, 'dev')] + [det(n, 'quick') for n in (2, 3, 4, 5, 6, 7)] + [det(8, 'thorough', 1700), det(9, 'thorough', 1700)]
+QUERIES = [jsonnl(4, 'unregistered'), strip(5, 'unregistered'), strip(7, 'unregistered')] + [det(n, 'quick') for n in (2, 3, 4, 5, 6, 7)] + [det(8, 'thorough', 1700), det(9, 'thorough', 1700)]
 BOUNDS = 'templates <= 8 (quick) / 10 (thorough) bytes over a 6-symbol alphabet'
 OUTSIDE = 'libfmt rendering of the values, JSON well-formedness for arbitrary values, the stripper and the split loop (need a libfmt model; not built)'
 ASSUMPTIONS = ['templates are valid libfmt templates (documented precondition of a log statement); spec text contains no nested braces']
